@@ -70,6 +70,47 @@ def add_weak_strong_conflict(desc, rng):
     return d, fam
 
 
+def add_tool_remap(desc, rng):
+    """graft: a recipe that hands a tool to its dependency under another name (depends: [{name, tools: {new: old}}])
+    without using the tool itself, reached with two different variants of that tool (seed C02-3: the remapped
+    source tool must count as used by the remapping package, or the two instances are taken for one)"""
+    d = copy.deepcopy(desc)
+    sfx = "%d" % rng.randrange(100)
+    depth = rng.choice([0, 1, 2])              # packages between the place where the tool comes in and the remap
+    tool, alias = rng.choice([("cc", "host-cc"), ("gen", "gen"), ("t" + sfx, "u" + sfx)])
+    if tool == alias:
+        alias = alias + "-x"
+    R = d["recipes"]
+    for k, how in (("1", rng.choice(["path", "script"])), ("2", None)):
+        R["trt" + k] = {"packageScript": proj.script_for("trt%sp" % k, "package", []) + ("echo two > two.txt\n" if k == "2" and how != "path" else ""),
+                        "provideTools": {tool: ("bin%s" % k) if k == "1" and how == "path" else "."}}
+    if R["trt1"]["provideTools"][tool] == "." and "two.txt" not in R["trt2"]["packageScript"]:
+        R["trt2"]["packageScript"] += "echo two > two.txt\n"
+    R["trlib"] = {"buildTools": [alias], "buildScript": proj.script_for("trlibb", "build", []),
+                  "packageScript": proj.script_for("trlibp", "package", []) + 'cp -a "$1"/. . 2>/dev/null || true\n'}
+    R["trmid"] = {"depends": [{"name": "trlib", "tools": {alias: tool}}],
+                  "buildScript": proj.script_for("trmidb", "build", []),
+                  "packageScript": proj.script_for("trmidp", "package", []) + 'cp -a "$1"/. . 2>/dev/null || true\n'}
+    below = "trmid"
+    for i in range(depth):
+        nm = "trvia%d" % i
+        R[nm] = {"depends": [below], "buildScript": proj.script_for(nm + "b", "build", []),
+                 "packageScript": proj.script_for(nm + "p", "package", []) + 'cp -a "$1"/. . 2>/dev/null || true\n'}
+        below = nm
+    for k in ("1", "2"):
+        R["trr" + k] = {"depends": [{"name": "trt" + k, "use": ["tools"], "forward": True}, below],
+                        "buildScript": proj.script_for("trr%sb" % k, "build", []),
+                        "packageScript": proj.script_for("trr%sp" % k, "package", []) + 'cp -a "$1"/. . 2>/dev/null || true\n'}
+    r0 = R["r0"]
+    r0["depends"] = list(r0.get("depends", [])) + (["trr1", "trr2"] if rng.random() < 0.5 else ["trr2", "trr1"])
+    # neighbours: an edit of one tool provider must change what is built with it below the remap, nothing else
+    fam = []
+    e = copy.deepcopy(d)
+    e["recipes"]["trt2"]["packageScript"] += "echo edited > edited-tool.txt\n"
+    fam.append((e, "remapped_tool_script"))
+    return d, fam
+
+
 EDITS = ["script", "class_script", "var_value", "var_list_add", "var_list_del", "weak_value", "dep_env", "dep_drop",
          "tool_path", "tool_libs", "provide_var", "meta", "unused_global", "source_file", "global_value"]
 
@@ -290,6 +331,10 @@ def run(ctx):
             if ws is not None:
                 base, extra = ws
                 ctx.count("motif:weak-and-strong-in-different-files")
+        if rng.random() < 0.4:
+            base, ex2 = add_tool_remap(base, rng)
+            extra = extra + ex2
+            ctx.count("motif:tool-remap-with-two-tool-variants")
         fam = [(base, sandbox)]
         for e_, k_ in extra:
             fam.append((e_, sandbox)); ctx.count("edit:" + k_)
